@@ -261,6 +261,8 @@ def emitXref (H : Ham) (o : Out) : Out := Id.run do
 
 def emitTree (T : STree) (nm : Naming) (o : Out) : Out := Id.run do
   let mut o := o
+  if !T.namesOk nm then
+    return o.put "txcheck" "err:KeyError"
   for t in T.allTaxa do
     o := o.put "txname" (taxS t ++ "=" ++ (T.nameAt nm t).getD "?" ++ "|d=" ++ toString t.length ++ "|leaf=" ++ (if T.isLeafAt t then "1" else "0"))
     for a in ancestors t do
